@@ -8,6 +8,7 @@ import (
 	"fmt"
 	"os"
 	"reflect"
+	"runtime"
 	"sync"
 )
 
@@ -48,10 +49,14 @@ func I64(name string) int64  { return int64(get(name)) }
 func Int(name string) int    { return int(int64(get(name))) }
 
 func Bytes(name string, n int) []byte {
+	var m0, m1 runtime.MemStats
+	runtime.ReadMemStats(&m0)
 	b := make([]byte, n)
 	for i := range b {
 		b[i] = byte(get(fmt.Sprintf("%s[%d]", name, i)))
 	}
+	runtime.ReadMemStats(&m1)
+	allocBase += m1.TotalAlloc - m0.TotalAlloc // building an input from the model is not part of what Allocated measures
 	return b
 }
 
@@ -65,9 +70,6 @@ func BytesSym(name string, max int) []byte {
 }
 
 func Str(name string, n int) string { return string(Bytes(name, n)) }
-
-
-
 
 func MapHas(m map[int64]bool, k int64) bool { _, ok := m[k]; return ok }
 
@@ -174,17 +176,39 @@ func deepEq(a, b reflect.Value, depth int) bool {
 // ---- directives (no-ops natively) ----
 
 func CutAt(fn, block string, k int) {}
-func Cut(f func()) bool              { f(); return false }
-func UF(fn, sym string)              {}
-func Unwind(n int)                   {}
-func NoMerge()                       {}
-func Merge()                         {}
-func ExpectPanic()                   {}
-func NoPanicExpected()               {}
-func MaxPaths(n int)                 {}
-func TrackAlloc()                    {}
-func Allocated() int                 { return 0 }
-func Steps() int                     { return 0 }
+func Cut(f func()) bool             { f(); return false }
+func UF(fn, sym string)             {}
+func Unwind(n int)                  {}
+func NoMerge()                      {}
+func Merge()                        {}
+func ExpectPanic()                  {}
+func NoPanicExpected()              {}
+func MaxPaths(n int)                {}
+
+// TrackAlloc / Allocated: under symgo a ghost count of the bytes requested by make/append/new since TrackAlloc.
+// Natively (replay of a solver model against the real build) the real heap allocation of the process since
+// TrackAlloc is measured instead, less a 16 KiB allowance for what the ghost count ignores (message structs,
+// error values, runtime bookkeeping): a native failure of an allocation bound therefore means the real decoder
+// really allocated more than the bound, and a path that respects the ghost bound cannot fail natively.
+var allocBase uint64
+
+func TrackAlloc() {
+	once.Do(load) // reading the model file is not part of what is measured
+	var m runtime.MemStats
+	runtime.ReadMemStats(&m)
+	allocBase = m.TotalAlloc
+}
+
+func Allocated() int {
+	var m runtime.MemStats
+	runtime.ReadMemStats(&m)
+	d := int(m.TotalAlloc - allocBase)
+	if d < 16384 {
+		return 0
+	}
+	return d - 16384
+}
+func Steps() int { return 0 }
 
 // Panics reports whether f panics.
 func Panics(f func()) (p bool) {
@@ -310,9 +334,9 @@ func Shares(a, b any) bool {
 	return false
 }
 
-func FootprintBegin()          {}
+func FootprintBegin()           {}
 func FootprintEnd(label string) {}
-func Owned(x any)              {}
+func Owned(x any)               {}
 
 func I8(name string) int8   { return int8(get(name)) }
 func I16(name string) int16 { return int16(get(name)) }
@@ -328,4 +352,4 @@ func Choose(name string, lo, hi int) int {
 }
 
 func UFSlice(fn, sym string, lenArg int) {}
-func QueryTimeout(ms int) {}
+func QueryTimeout(ms int)                {}
